@@ -10,7 +10,7 @@ PROD engine, three parts:
  commands : command words (every prefix, wl forms, garbage) x arguments x session
             states
 Oracle: totality - the call returns, only SystemExit leaves main in run mode, every
-opened connection is reported closed, within a 5 s alarm."""
+opened connection is reported closed, within a 20 s alarm."""
 import io
 import itertools
 import os
@@ -72,7 +72,7 @@ def run_log(data, mode):
     escaped = None
     extra = {}
     old = signal.signal(signal.SIGALRM, _alarm)
-    signal.alarm(8 if len(data) > 1000000 else 5)
+    signal.alarm(40 if len(data) > 1000000 else 20)      # generous: the machine may be busy; normal cases take milliseconds
     try:
         with tempfile.TemporaryDirectory(prefix='verif-c18-') as d:
             path = os.path.join(d, 'in.log')
